@@ -77,6 +77,7 @@ struct C08 : Scenario {
             p.set("kind", r.pick(std::vector<std::string>{"kicky", "kicky", "kickx", "rflin", "rfsin", "drift", "fp", "ident"}));
             p.seti("n", r.range(8, 40)); p.seti("nb", r.range(2, 4)); p.seti("interp", r.range(1, 4)); p.seti("clamp", r.chance(0.2));
             p.setu("oseed", r.u64()); p.setu("dseed", r.u64()); p.seti("napply", r.range(1, 50));
+            p.seti("resched", r.chance(0.4));
             p.seti("fptype", r.range(0, 3)); p.seti("deriv", r.range(3, 4)); p.setd("e1", r.loguniform(1e-4, 2e-2));
             p.setd("angle", r.uniform(0.02, 0.4)); p.seti("offkind", r.range(0, 3));
             p.setd("shiftx", r.chance(0.5) ? 0 : (double)r.range(-3, 3)); p.setd("shifty", r.chance(0.5) ? 0 : (double)r.range(-3, 3));
@@ -159,6 +160,17 @@ struct C08 : Scenario {
         m.shiftx = plan.getd("shiftx"); m.shifty = plan.getd("shifty");
         unsigned nb = (unsigned)plan.geti("nb");
         const size_t cells = (size_t)m.n * m.n;
+        // energy kick whose displacement field is replaced before every application (as the wake kick is, every step): a seeded
+        // schedule of steps in which every bunch gets its own field (D), all bunches get bitwise the same field (S) or a zero field (Z)
+        const bool resched = plan.geti("resched", 0) && m.kind == "kicky";
+        Rng rs(Rng::mix(m.oseed, 0x5c4ed));
+        std::string sched;
+        for (long k = 0; k < m.napply; k++) sched += resched ? "DSZ"[rs.range(0, 9) < 5 ? 0 : rs.range(0, 9) < 7 ? 1 : 2] : 'D';
+        auto field = [&](long k, unsigned bunch) {
+            if (sched[(size_t)k] == 'Z') return std::vector<float>(m.n, 0.0f);
+            return offsets(m.n, Rng::mix(m.oseed, 977 * (uint64_t)k), sched[(size_t)k] == 'S' ? 0 : bunch, m.offkind);
+        };
+        if (resched) o.probe("reach.field_replaced_every_application");
         api_begin(rc.workdir, plan.getu("entropy"), 0);
         // multi-bunch history, outputs recorded per application
         std::vector<std::vector<float>> rec;   // [application] -> nb*cells
@@ -166,6 +178,11 @@ struct C08 : Scenario {
             Built b = build(m, nb, -1);
             for (unsigned bb = 0; bb < nb; bb++) fill_bunch(b.in->getData() + bb * cells, m.n, m.dseed, bb);
             for (long k = 0; k < m.napply; k++) {
+                if (resched) {
+                    std::vector<meshaxis_t> off((size_t)m.n * nb);
+                    for (unsigned bb = 0; bb < nb; bb++) { auto f = field(k, bb); std::copy(f.begin(), f.end(), off.begin() + (size_t)bb * m.n); }
+                    dynamic_cast<KickMap*>(b.map.get())->swapOffset(off);
+                }
                 b.map->apply();
                 rec.emplace_back(b.out->getData(), b.out->getData() + nb * cells);
                 std::copy(b.out->getData(), b.out->getData() + nb * cells, b.in->getData());
@@ -176,6 +193,7 @@ struct C08 : Scenario {
             Built s = build(m, 1, (int)bb);
             fill_bunch(s.in->getData(), m.n, m.dseed, bb);
             for (long k = 0; k < m.napply; k++) {
+                if (resched) { auto f = field(k, bb); std::vector<meshaxis_t> off(f.begin(), f.end()); dynamic_cast<KickMap*>(s.map.get())->swapOffset(off); }
                 s.map->apply();
                 o.checks++;
                 size_t where = 0;
